@@ -122,6 +122,9 @@ pub mod k {
     pub const BUSY_NEAR_US: i128 = 89; // >0: busy-polling driver - whenever a connection's next deadline is at most this far away every connection is driven every microsecond until then (drives that produce nothing leave no records)
     pub const CLOSE_ON_TIMER: i128 = 90; // 1 + timer index (Timer::VALUES order: 0 LossDetection 1 Idle 2 Close 3 KeyDiscard 4 PathValidation 5 KeepAlive 6 Pacing 7 PushNewCid 8 MaxAckDelay): the application (CLOSER side) calls close() in the very driver iteration in which that timer of its connection has expired - after handle_timeout, before the endpoint's answers are delivered
     pub const CLOSE_ON_TIMER_N: i128 = 91; // ... at its n-th expiry (default 1)
+    pub const NEW_MAXSTREAMS_AT: i128 = 92; // us: the server calls set_max_concurrent_streams on every connection
+    pub const NEW_MAX_BIDI: i128 = 93; // ... with these values (-1 = leave)
+    pub const NEW_MAX_UNI: i128 = 94;
     pub const DGRAM_START: i128 = 81; // us: application datagrams are not sent before this instant
     pub const RECONNECT: i128 = 70; // open this many further client connections, one per drained connection (slot reuse)
 }
@@ -1727,6 +1730,7 @@ impl World {
         let mut replaced = 0usize;
         let mut keyupd = [false, false];
         let mut rwnd_done = false;
+        let mut maxstreams_done = false;
         let mut forgot = false;
         let mut mtu_changed = false;
         let mut hostile_done = false;
@@ -1776,7 +1780,7 @@ impl World {
                 }
                 upd(1_000_000);
             }
-            for key in [k::MIGRATE_AT, k::MIGRATE2_AT, k::KEYUPD_C, k::KEYUPD_S, k::CLOSE_AT, k::NEW_RWND_AT, k::LINK_MTU_AT, k::HOSTILE_AT, k::FORGET_AT] {
+            for key in [k::MIGRATE_AT, k::MIGRATE2_AT, k::KEYUPD_C, k::KEYUPD_S, k::CLOSE_AT, k::NEW_RWND_AT, k::LINK_MTU_AT, k::HOSTILE_AT, k::FORGET_AT, k::NEW_MAXSTREAMS_AT] {
                 let v = self.p.get(key, 0);
                 if v > 0 && v as u64 > self.now {
                     upd(v as u64);
@@ -1890,6 +1894,32 @@ impl World {
                 self.eps[1].conns.clear();
                 self.eps[1].zombies.clear();
                 self.trace.push(vec![13, self.now as i128, 11, 1]);
+            }
+            let ms_at = self.p.get(k::NEW_MAXSTREAMS_AT, 0);
+            if ms_at > 0 && !maxstreams_done && self.now as i128 >= ms_at {
+                let nb = self.p.get(k::NEW_MAX_BIDI, -1);
+                let nu = self.p.get(k::NEW_MAX_UNI, -1);
+                // once every expected server connection exists and has completed its handshake
+                let ready = self.eps[1].conns.len() as i128 >= nconns
+                    && self.eps[1].conns.values().all(|c| !c.conn.is_handshaking());
+                if !ready {
+                    // try again at the next iteration
+                } else {
+                maxstreams_done = true;
+                for cs in self.eps[1].conns.values_mut() {
+                    if nb >= 0 {
+                        cs.conn.set_max_concurrent_streams(Dir::Bi, VarInt::from_u64(nb as u64).unwrap());
+                    }
+                    if nu >= 0 {
+                        cs.conn.set_max_concurrent_streams(Dir::Uni, VarInt::from_u64(nu as u64).unwrap());
+                    }
+                }
+                self.trace.push(vec![13, self.now as i128, 13, nb, nu]);
+                let keys: Vec<usize> = self.eps[1].conns.keys().cloned().collect();
+                for chk in keys {
+                    self.drive_conn(1, chk);
+                }
+                }
             }
             let rw_at = self.p.get(k::NEW_RWND_AT, 0);
             if rw_at > 0 && !rwnd_done && self.now as i128 >= rw_at {
